@@ -141,6 +141,10 @@ func ParseConfig(conf string) (raw *RawConfig, err error) {
 	if err != nil {
 		return
 	}
+	if raw == nil {
+		// the JSON value null unmarshals into the pointer itself: not a configuration
+		err = fmt.Errorf("configuration is null")
+	}
 	return
 }
 
